@@ -3,6 +3,7 @@ package rules
 import (
 	"fmt"
 	"go/types"
+	"sort"
 	"strings"
 
 	"golang.org/x/tools/go/ssa"
@@ -20,6 +21,23 @@ func checkConstRender(c *core.Ctx, l *core.Ledger) {
 	scalar := map[string]bool{"compile.ConstantBool": true, "compile.ConstantDouble": true, "compile.ConstantInt": true, "compile.ConstantString": true}
 	n := 0
 	seenKinds := map[string]bool{}
+	negZero := map[*ssa.Function]bool{}
+	negZeroPos := map[*ssa.Function]string{}
+	defer func() {
+		var bad []string
+		pos := ""
+		for f, aware := range negZero {
+			if !aware {
+				bad = append(bad, core.SSAName(f))
+				pos = negZeroPos[f]
+			}
+		}
+		sort.Strings(bad)
+		if len(negZero) > 0 {
+			l.Check(len(bad) == 0, "CONST-RENDER", "ConstantDouble:negative-zero", pos, "the sign of a zero constant is handled separately from the numeric literal",
+				"a double constant is printed as a Go numeric literal without looking at its sign bit ("+strings.Join(bad, ", ")+"): the IDL constant -0.0 is rendered as '-0', which Go reads as the constant +0")
+		}
+	}()
 	for _, f := range c.AllFuncs("gen") {
 		if c.IsTestFile(f.Pos()) || len(f.Blocks) == 0 {
 			continue
@@ -103,6 +121,21 @@ func checkConstRender(c *core.Ctx, l *core.Ledger) {
 						key := fmt.Sprintf("%s:%s#%d", core.SSAName(f), kind, k)
 						why := formatLoss(x, v, derived[v])
 						l.Check(why == "", "CONST-RENDER", key, c.Rel(x.Pos()), "the constant is rendered by a formatter that is injective on its type", why)
+						if o := core.CalleeObj(x); kind == "compile.ConstantDouble" && why == "" && o != nil && o.Pkg() != nil && (o.Pkg().Path() == "fmt" || o.Pkg().Path() == "strconv") {
+							// a Go numeric literal cannot denote negative zero: "-0" is the constant +0
+							if _, seen := negZero[f]; !seen {
+								signAware := false
+								core.Instrs(f, func(in2 ssa.Instruction) {
+									if c2, ok := in2.(ssa.CallInstruction); ok {
+										if o := core.CalleeObj(c2); o != nil && o.Pkg() != nil && o.Pkg().Path() == "math" && (o.Name() == "Signbit" || o.Name() == "Float64bits" || o.Name() == "Copysign") {
+											signAware = true
+										}
+									}
+								})
+								negZero[f] = signAware
+								negZeroPos[f] = c.Rel(x.Pos())
+							}
+						}
 					case *ssa.If, *ssa.BinOp, *ssa.UnOp, *ssa.DebugRef, *ssa.Phi:
 						// tests on the value (e.g. `if v {`), no rendering
 					case *ssa.Return, *ssa.MapUpdate, *ssa.Send:
